@@ -44,6 +44,10 @@ def World.put (w : World) (i n k v : Bytes) : World :=
 def World.metaPut (w : World) (i n k v : Bytes) : World :=
   w.setDb i n ((openDb (w.env i) n (w.db i n)).metaUpdate k v)
 
+/-- `Create(n)->Remove()`: the dictionary is lost; the snapshots in the sync directory stay -/
+def World.drop (w : World) (i n : Bytes) : World :=
+  { w with dbs := w.dbs.filter fun e => e.1 != (i, n) }
+
 /-- `UserDictManager(i).Backup(n)`, snapshot stored as file `f` -/
 def World.backup (w : World) (i n f : Bytes) : World × Bool :=
   match managerBackup (w.env i) n (w.db i n) with
